@@ -295,7 +295,7 @@ class FuzzyWeightedUnion(SameArrayShapeMixin, Command):
         weights = kwargs["Weights"]
 
         if len(arrays) != len(weights):
-            raise MismatchedWeights(len(weights), len(arrays))
+            raise MismatchedWeights(len(weights), len(arrays), lineno=self.argument_lines.get("Weights", self.lineno))
 
         self.validate_array_shapes(
             arrays, lineno=self.argument_lines.get("InFieldNames")
